@@ -347,10 +347,109 @@ let parse_tout (s : string) : tout option =
   | "libpanic" :: "duplicate" :: _ -> Some TOutLibPanic
   | _ -> None
 
+
+(* ---------- capacity-contract oracles (C08, C12, C13), judged on the implementation's own dumps ---------- *)
+let alloc_size (d : dump) : int = match String.split_on_char ',' d.d_alloc with [s; _; _] -> int_of_string s | _ -> 0
+let ev_has_alloc_traffic (ev_s : string) : bool =
+  List.exists (fun w -> String.length w > 2 && (String.sub w 0 2 = "A:" || String.sub w 0 2 = "F:")) (words ev_s)
+let single_insert_ops = ["insert"; "tryinsert"; "entry_or_insert"; "entry_insert"; "entry_and_modify"; "sinsert"; "sreplace";
+                         "sgetorinsert"; "sgetorinsertwith"; "sentry_insert"; "tinsertunique"; "tentryinsert"; "tentryorinsert"]
+let churn_ops = ["insert"; "remove"; "removeentry"; "get"; "getkv"; "contains"; "getmut"; "tryinsert"; "entry_or_insert"; "entry_insert";
+                 "entry_remove"; "entry_and_modify"; "entry_drop"; "len"; "capacity"; "allocsize"; "iter"; "iterfold";
+                 "tinsertunique"; "tfindentryremove"; "tremovereinsert"; "tentryinsert"; "tentryorinsert"; "tentrydrop"; "tfind"; "tfindmut"; "titer"; "tlen"; "titerhash";
+                 "sinsert"; "sremove"; "stake"; "sreplace"; "sget"; "sgetorinsert"; "contains"]
+
+let capacity_oracles (say : string -> unit) (where : string) (gw : int) (tsize : z) (calign : z)
+    (opws : string list) (pre : dump) (post : dump) (ret_s : string) (ev_s : string) (arm : string)
+    (churn_max : int ref) (churn_ok : bool ref) =
+  let opname = List.hd opws in
+  let big = List.mem "BIG" pre.d_flags || List.mem "BIG" post.d_flags in
+  let zint (x : z) = (try int_of_string (string_of_z x) with _ -> max_int) in
+  let len_post = zint post.d_items and gl_post = zint post.d_growth in
+  let cap_pre = zint pre.d_items + zint pre.d_growth and cap_post = len_post + gl_post in
+  let normal = (match strip_prefix "unwind" ret_s, strip_prefix "libpanic" ret_s with None, None -> true | _ -> false) in
+  let argn i = (try Some (zs (List.nth opws i)) with _ -> None) in
+  let fits (n : z) = Z.ltb n (zs "4611686018427387904") in
+  (* C08 *)
+  if cap_post < len_post then say (Printf.sprintf "K-FAIL %s: capacity() %d < len() %d" where cap_post len_post);
+  (match opname, argn 1 with
+   | ("reserve" | "treserve" | "withcap" | "twithcap"), Some n when normal && fits n ->
+     if gl_post < zint n then say (Printf.sprintf "K-FAIL %s: after %s %s only %d more elements fit without reallocation (capacity %d, len %d)" where opname (string_of_z n) gl_post cap_post len_post)
+   | ("tryreserve" | "ttryreserve"), Some n when ret_s = "try ok" && fits n ->
+     if gl_post < zint n then say (Printf.sprintf "K-FAIL %s: try_reserve(%s) returned Ok but only %d more elements fit" where (string_of_z n) gl_post)
+   | _ -> ());
+  if List.mem opname single_insert_ops && zint pre.d_growth > 0 && arm = "-" && normal then begin
+    if ev_has_alloc_traffic ev_s || pre.d_mask <> post.d_mask then
+      say (Printf.sprintf "K-FAIL %s: an insertion (re)allocated although capacity()-len() was %d" where (zint pre.d_growth))
+  end;
+  (match opname, argn 1 with
+   | ("withcap" | "twithcap"), Some n when Z.eqb n Z0 && normal -> if post.d_alloc <> "-" then say (Printf.sprintf "K-FAIL %s: with_capacity(0) allocated" where)
+   | _ -> ());
+  if List.mem opname ["clear"; "tclear"; "drain"; "tdrain"] && normal && pre.d_alloc <> post.d_alloc then
+    say (Printf.sprintf "K-FAIL %s: %s changed the allocation: [%s] -> [%s]" where opname pre.d_alloc post.d_alloc);
+  if List.mem opname ["allocsize"; "tallocsize"] && ret_s <> Printf.sprintf "num %d" (alloc_size post) then
+    say (Printf.sprintf "K-FAIL %s: allocation_size() = [%s] but the table holds a block of %d bytes" where ret_s (alloc_size post));
+  (match opname with
+   | "shrinkto" | "shrinktofit" | "tshrinkto" | "tshrinktofit" when normal && not big ->
+     let len = zint pre.d_items in
+     let m = (match opname, argn 1 with
+       | ("shrinkto" | "tshrinkto"), Some n -> if fits n then zint n else max_int
+       | "tshrinktofit", _ -> len
+       | _ -> 0) in
+     if alloc_size post > alloc_size pre then say (Printf.sprintf "K-FAIL %s: shrinking enlarged the allocation %d -> %d" where (alloc_size pre) (alloc_size post));
+     if cap_post < max len (min m cap_pre) then
+       say (Printf.sprintf "K-FAIL %s: shrink_to(%d) left capacity %d < max(len %d, min(m, previous capacity %d))" where m cap_post len cap_pre);
+     if len = 0 && m = 0 && post.d_alloc <> "-" then say (Printf.sprintf "K-FAIL %s: shrinking an empty collection to 0 kept the allocation" where);
+     if not (len = 0 && m = 0) && m < max_int then begin
+       match capacity_to_buckets (zi gw) (zi (max 1 (max len m))) tsize calign with
+       | Some b -> if post.d_mask + 1 > zint b && post.d_mask + 1 < pre.d_mask + 1 + 0 * 0 || (post.d_mask + 1 > zint b && post.d_mask <> pre.d_mask) then
+           say (Printf.sprintf "K-FAIL %s: after shrink_to the table has %d buckets, a fresh with_capacity(%d) would have %s" where (post.d_mask + 1) (max len m) (string_of_z b))
+       | None -> ()
+     end
+   | _ -> ());
+  (* C12 *)
+  (match opname with
+   | "tryreserve" | "ttryreserve" ->
+     let hash_armed = (try ignore (Str.search_forward (Str.regexp "hashpanic") arm 0); true with Not_found -> false) in
+     if not normal && not hash_armed then say (Printf.sprintf "R-FAIL %s: try_reserve did not return: [%s]" where ret_s);
+     (match strip_prefix "try " ret_s with
+      | Some r when r <> "ok" ->
+        if dump_text pre <> dump_text post || pre.d_alloc <> post.d_alloc then say (Printf.sprintf "R-FAIL %s: try_reserve returned an error (%s) but changed the collection" where r);
+        if ev_has_alloc_traffic ev_s || (try ignore (Str.search_forward (Str.regexp "DT:") ev_s 0); true with Not_found -> false) then
+          say (Printf.sprintf "R-FAIL %s: try_reserve returned an error (%s) after allocating / freeing / dropping: [%s]" where r ev_s);
+        (match strip_prefix "allocerr " r with
+         | Some la ->
+           (* the reported layout is the refused request *)
+           let refused = List.filter_map (fun w -> strip_prefix "R:" w) (words ev_s) in
+           (match words la, refused with
+            | [sz; al], [rq] -> if rq <> sz ^ ":" ^ al then say (Printf.sprintf "R-FAIL %s: AllocError carries layout (%s,%s) but the refused request was %s" where sz al rq)
+            | _, [] -> say (Printf.sprintf "R-FAIL %s: AllocError although the allocator refused nothing" where)
+            | _ -> ())
+         | None -> if r = "overflow" && List.exists (fun w -> strip_prefix "R:" w <> None) (words ev_s) then
+               say (Printf.sprintf "R-FAIL %s: CapacityOverflow reported although the allocator refused a request" where))
+      | Some _ ->
+        if List.exists (fun w -> strip_prefix "R:" w <> None) (words ev_s) && not (ev_has_alloc_traffic ev_s) && dump_text pre <> dump_text post then ()
+      | None -> ())
+   | _ -> ());
+  (* C13: growth is bounded by the live size *)
+  if not (List.mem opname churn_ops) then churn_ok := false;
+  (* the bound is about tables that only ever grew through insertions: restart whenever the
+     collection is back to the unallocated state *)
+  if post.d_alloc = "-" then begin churn_ok := true; churn_max := 0 end;
+  if !churn_ok && normal && not big then begin
+    churn_max := max !churn_max (max (zint pre.d_items) len_post);
+    let nb = post.d_mask + 1 in
+    if nb > 16 then begin
+      let half_cap = zint (bucket_mask_to_capacity (zi (nb / 2 - 1))) in
+      if not (half_cap < 2 * (!churn_max + 1)) then
+        say (Printf.sprintf "G-FAIL %s: %d buckets for at most %d live elements (a table of half the size holds %d)" where nb !churn_max half_cap)
+    end
+  end
+
 (* ---------- the checking loop ---------- *)
 type cfg = { mutable backend : backend; mutable gw : int; mutable tsize : z; mutable talign : z;
              mutable needs_drop : bool; mutable hashes : (string * z) list; mutable rule : string;
-             mutable eqrule : string; mutable coll : string }
+             mutable eqrule : string; mutable coll : string; mutable calign : z }
 
 let findings = ref 0
 let say fmt = Printf.ksprintf (fun s -> incr findings; print_endline s) fmt
@@ -367,12 +466,13 @@ let () =
   (try while true do lines := input_line ic :: !lines done with End_of_file -> ());
   close_in ic;
   let lines = Array.of_list (List.rev !lines) in
-  let cfg = { backend = sse2_backend; gw = 16; tsize = Z0; talign = Z0; needs_drop = true; hashes = []; rule = "mix"; eqrule = "lawful"; coll = "map" } in
+  let cfg = { backend = sse2_backend; gw = 16; tsize = Z0; talign = Z0; needs_drop = true; hashes = []; rule = "mix"; eqrule = "lawful"; coll = "map"; calign = Z0 } in
   let script = ref "" in
   let spec : kv list ref = ref [] in
   let spec_other : kv list ref = ref [] in      (* abstract contents of the set that is not the current target *)
   let tgt = ref "A" in
   let spec_valid = ref true in
+  let churn_max = ref 0 and churn_ok = ref true in
   let steps = ref 0 and c_checked = ref 0 and c_skipped = ref 0 and b_checked = ref 0 and a_checked = ref 0 in
   let opcount : (string, int) Hashtbl.t = Hashtbl.create 31 in
   let branch : (string, int) Hashtbl.t = Hashtbl.create 31 in
@@ -393,7 +493,7 @@ let () =
   while !i < n do
     let l = lines.(!i) in
     (match strip_prefix "SCRIPT " l with
-     | Some s -> script := s; spec := []; spec_other := []; tgt := "A"; spec_valid := true; cfg.hashes <- []; cfg.rule <- "mix"; cfg.eqrule <- "lawful"
+     | Some s -> script := s; churn_max := 0; churn_ok := true; spec := []; spec_other := []; tgt := "A"; spec_valid := true; cfg.hashes <- []; cfg.rule <- "mix"; cfg.eqrule <- "lawful"
      | None -> ());
     (match strip_prefix "TGT " l with
      | Some t -> let t = String.trim t in
@@ -408,6 +508,7 @@ let () =
        let ev_s = String.trim (get "EV" 5) and post_s = get "POST " 6 and posto_s = get "POSTO " 7 and chk_s = get "CHK " 9 in
        i := !i + 9;
        incr steps;
+       churn_ok := false;          (* clone / swap: the table no longer grew through insertions only *)
        bump opcount opname;
        let where = Printf.sprintf "script=%s step=%s op=[%s]" !script stepno opname in
        (try
@@ -479,6 +580,7 @@ let () =
           | "o_swap" ->
             let x = !spec in spec := !spec_other; spec_other := x
           | "o_salt" -> spec_other := []
+          | "o_eq" when unwound -> ()
           | "o_eq" ->
             incr c_checked; incr a_checked;
             let mb = map_eq (occupants tpre) (occupants tpreo) in
@@ -606,6 +708,7 @@ let () =
        let m = kvmap (words s) in
        cfg.gw <- int_of_string (List.assoc "gw" m);
        cfg.coll <- List.assoc "coll" m;
+       cfg.calign <- zs (List.assoc "calign" m);
        cfg.backend <- (if cfg.gw = 16 then sse2_backend else generic_backend);
        cfg.tsize <- zs (List.assoc "tsize" m); cfg.talign <- zs (List.assoc "talign" m);
        cfg.needs_drop <- (List.assoc "needs_drop" m = "1")
@@ -634,6 +737,7 @@ let () =
          let tpre = table_of_dump pre and tpost = table_of_dump post in
          if chk_s <> "ok" then say "H-FAIL %s: harness check: %s" where chk_s;
          List.iter (fun fl -> if List.mem fl post.d_flags then say "H-FAIL %s: %s" where fl) ["MISALIGNED_CTRL"; "MISALIGNED_SLOT"; "SLOT_OUT_OF_BLOCK"];
+         capacity_oracles (fun m -> incr findings; print_endline m) where cfg.gw cfg.tsize cfg.calign opws pre post ret_s ev_s arm churn_max churn_ok;
          let armws = List.map words (String.split_on_char ';' arm) in
          let panic_key = List.fold_left (fun acc w -> match w with ["hashpanic_key"; k] -> Some (zs k) | _ -> acc) None armws in
          let refuse = List.exists (fun w -> w = ["refuse_nth"; "0"]) armws in
@@ -763,6 +867,8 @@ let () =
            | _ -> op0) in
          if chk_s <> "ok" then say "H-FAIL %s: harness check: %s" where chk_s;
          if List.mem "MISALIGNED_CTRL" post.d_flags then say "H-FAIL %s: control bytes misaligned" where;
+         if !tgt = "A" || cfg.coll <> "set" then
+           capacity_oracles (fun m -> incr findings; print_endline m) where cfg.gw cfg.tsize cfg.calign opws pre post ret_s ev_s arm churn_max churn_ok;
          if opname = "par_split" then begin
            (* level C for the splitting itself: every leaf of the caller-chosen split tree *)
            let dec = (match opws with [_; bits] -> List.init (String.length bits) (fun i -> bits.[i] = '1') | _ -> []) in
@@ -805,7 +911,11 @@ let () =
              say "B-FAIL %s: post-state violates Tags/Reach for its hashes: %s" where (dump_text post)
          end;
          (* ---- level C ---- *)
-         if do_c && lawful && not other_arm && not is_libpanic && not is_par then begin
+         let huge = (match op with
+           | OpReserve n | OpTryReserve n | OpShrinkTo n | OpWithCapacity n -> Z.ltb (zs "16777216") n
+           | _ -> false) in
+         if huge then bump branch "huge_capacity_request";
+         if do_c && lawful && not other_arm && not is_libpanic && not is_par && not huge then begin
            incr c_checked;
            (match map_step cfg.backend cfg.tsize cfg.talign cfg.needs_drop rehash_guard_unconditional
                     (hash_of panic_key) refuse tpre op with
@@ -817,7 +927,8 @@ let () =
               let mo = out_text o in
               let io = (match ret with Some r -> out_text r | None -> ret_s) in
               if mo <> io then say "C-MISMATCH %s: return value: model [%s] impl [%s]" where mo io;
-              let me = ev_text evs and ie = (if ev_s = "" then "-" else ev_s) in
+              let strip_r e = (let ws = List.filter (fun w -> not (String.length w > 2 && String.sub w 0 2 = "R:")) (words e) in if ws = [] then "-" else String.concat " " ws) in
+              let me = ev_text evs and ie = strip_r (if ev_s = "" then "-" else ev_s) in
               if me <> ie then say "C-MISMATCH %s: events: model [%s] impl [%s]" where me ie;
               (* branch coverage bookkeeping *)
               let has p = List.exists p evs in
@@ -866,8 +977,11 @@ let () =
     (match strip_prefix "END " l with
      | Some s ->
        let m = kvmap (words s) in
-       if List.assoc "live" m <> "0" then say "H-FAIL script=%s: %s objects were never dropped (leak)" !script (List.assoc "live" m);
-       if List.assoc "blocks" m <> "0" then say "H-FAIL script=%s: %s blocks still allocated after drop" !script (List.assoc "blocks" m);
+       let dp = (try List.assoc "drop_panics" m with Not_found -> "0") in
+       (* a destructor panicked somewhere in this script: the elements it left behind and the
+          table's block may legitimately have been leaked (C04) *)
+       if dp = "0" && List.assoc "live" m <> "0" then say "H-FAIL script=%s: %s objects were never dropped (leak)" !script (List.assoc "live" m);
+       if dp = "0" && List.assoc "blocks" m <> "0" then say "H-FAIL script=%s: %s blocks still allocated after drop" !script (List.assoc "blocks" m);
        if List.assoc "double_drops" m <> "0" then say "H-FAIL script=%s: double drops" !script
      | None -> ());
     incr i
